@@ -238,7 +238,7 @@ func codecResultProvenance(c *core.Ctx) {
 			if len(ret.Results) != 1 {
 				continue
 			}
-			r := astx.Unparen(ret.Results[0])
+			r := astx.StripConv(info, astx.Unparen(ret.Results[0])) // string(buf.Bytes()) is buf.String()
 			ok := false
 			switch x := r.(type) {
 			case *ast.Ident:
@@ -248,7 +248,7 @@ func codecResultProvenance(c *core.Ctx) {
 					switch {
 					case set[f.Name()] && f.Pkg() == p.Connect.Types:
 						ok = true
-					case f.Name() == "String" && (astx.TypeIs(derefType(recvType(f)), "bytes", "Buffer") || astx.TypeIs(derefType(recvType(f)), "strings", "Builder")):
+					case (f.Name() == "String" || f.Name() == "Bytes") && (astx.TypeIs(derefType(recvType(f)), "bytes", "Buffer") || astx.TypeIs(derefType(recvType(f)), "strings", "Builder")):
 						// the builder must be a local of this function
 						if sel, isSel := x.Fun.(*ast.SelectorExpr); isSel {
 							if v, isVar := astx.ObjOf(info, sel.X).(*types.Var); isVar && !v.IsField() {
